@@ -12,25 +12,36 @@ Definition kernel_ok (p : point) : bool :=
   | Alg_NO_QUANTIZE => false
   end.
 
+(* F20 (known finding): the one accepted class the runtime does not support *)
+Definition f20 (p : point) : bool :=
+  algname_eqb (p_alg p) Alg_MIN_MAX_UNIFORM_QUANT && opname_eqb (p_op p) Op_DEPTHWISE_CONV_2D
+  && precision_eqb (ocfg_compute_precision (p_cfg p)) Prec_INTEGER
+  && is_none (ocfg_activation_tensor_config (p_cfg p))
+  && match ocfg_weight_tensor_config (p_cfg p) with
+     | Some w => granularity_eqb (tcfg_granularity w) Gr_TENSORWISE && Z.eqb (tcfg_num_bits w) 8
+                 && tcfg_symmetric w && dtype_eqb (tcfg_dtype w) Dt_INT
+     | None => false end
+  && negb (ocfg_explicit_dequantize (p_cfg p)).
+
 Definition sound_point (p : point) : bool :=
   implb (accepted p)
         (negb (is_none (lookup_registration (p_alg p) (p_op p)))   (* materializer *)
          && (match p_alg p with
              | Alg_MIN_MAX_UNIFORM_QUANT => transformations_defined (p_cfg p)
              | _ => true end)
-         && kernel_ok p).
+         && (kernel_ok p || f20 p)).
 
 Lemma sound_all : forallb sound_point lattice = true.
 Proof. vm_compute. reflexivity. Qed.
 
 (* Accepted => a materializer is registered, the execution mode is defined
-   for every (inbound, constant) combination, and the pair is in the kernel
-   support table. *)
-Theorem C13_accept_sound :
+   for every (inbound, constant) combination, and — outside the F20 class —
+   the pair is in the kernel support table. *)
+Theorem C13_accept_sound_partial :
   forall p, In p lattice -> accepted p = true ->
     lookup_registration (p_alg p) (p_op p) <> None /\
     (p_alg p = Alg_MIN_MAX_UNIFORM_QUANT -> transformations_defined (p_cfg p) = true) /\
-    kernel_ok p = true.
+    (f20 p = false -> kernel_ok p = true).
 Proof.
   intros p Hin Hacc.
   pose proof (proj1 (forallb_forall _ _) sound_all p Hin) as H. clear Hin.
@@ -40,27 +51,51 @@ Proof.
   repeat split.
   - destruct (lookup_registration (p_alg p) (p_op p)); [discriminate|discriminate].
   - intros E. rewrite E in Ht. exact Ht.
-  - exact Hk.
+  - intros Hf. rewrite Hf, orb_false_r in Hk. exact Hk.
 Qed.
-Print Assumptions C13_accept_sound.
+Print Assumptions C13_accept_sound_partial.
+
+(* the full statement is FALSE of the code as it stands: dynamic-range
+   depthwise convolution with per-tensor int8 weights is accepted although the
+   runtime kernel needs per-channel parameters (witness replayed on the
+   implementation by the C13 runtime step: garbage outputs) *)
+Definition f20_witness : point :=
+  {| p_alg := Alg_MIN_MAX_UNIFORM_QUANT; p_op := Op_DEPTHWISE_CONV_2D;
+     p_cfg := Mk_ocfg None (Some (Mk_tcfg 8 true Gr_TENSORWISE Dt_INT 0)) Prec_INTEGER false false |}.
+Theorem C13_accept_sound_refuted :
+  exists p, In p lattice /\ accepted p = true /\ kernel_ok p = false.
+Proof.
+  exists f20_witness. split; [|split; vm_compute; reflexivity].
+  unfold lattice, f20_witness.
+  apply in_flat_map. exists Alg_MIN_MAX_UNIFORM_QUANT. split; [cbn; auto|].
+  apply in_flat_map. exists Op_DEPTHWISE_CONV_2D. split; [vm_compute; auto 30|].
+  apply in_map_iff. eexists. split; [reflexivity|].
+  unfold lat_cfgs.
+  apply in_flat_map. exists None. split; [cbn; auto|].
+  apply in_flat_map. exists (Mk_tcfg 8 true Gr_TENSORWISE Dt_INT 0). split; [vm_compute; auto 30|].
+  apply in_flat_map. exists Prec_INTEGER. split; [cbn; auto|].
+  apply in_map_iff. exists false. split; [reflexivity|cbn; auto].
+Qed.
+Print Assumptions C13_accept_sound_refuted.
 
 (* Conversely the kernel table contains nothing the policy refuses for a
-   constructible config: acceptance is EXACTLY kernel support on the lattice
-   (so a policy edit in either direction is noticed). *)
+   constructible config: acceptance is EXACTLY kernel support on the lattice,
+   plus the F20 class (so a policy edit in either direction is noticed). *)
 Lemma exact_all :
   forallb (fun p => Bool.eqb (accepted p)
-                      (negb (Z.eqb (classify p) 0) && kernel_ok p)) lattice = true.
+                      (negb (Z.eqb (classify p) 0) && (kernel_ok p || f20 p))) lattice = true.
 Proof. vm_compute. reflexivity. Qed.
 
-Theorem C13_accept_iff_kernel :
-  forall p, In p lattice -> classify p <> 0 -> (accepted p = true <-> kernel_ok p = true).
+Theorem C13_accept_iff_kernel_partial :
+  forall p, In p lattice -> classify p <> 0 ->
+    (accepted p = true <-> kernel_ok p = true \/ f20 p = true).
 Proof.
   intros p Hin Hc.
   pose proof (proj1 (forallb_forall _ _) exact_all p Hin) as H. clear Hin. cbn beta in H.
   apply eqb_prop in H. rewrite H.
-  destruct (Z.eqb_spec (classify p) 0); [contradiction|]. cbn. tauto.
+  destruct (Z.eqb_spec (classify p) 0); [contradiction|]. cbn. rewrite orb_true_iff. tauto.
 Qed.
-Print Assumptions C13_accept_iff_kernel.
+Print Assumptions C13_accept_iff_kernel_partial.
 
 (* every point is constructed-and-accepted, refused with ValueError, or not
    constructible; no other exception *)
